@@ -1,0 +1,83 @@
+// +build verif
+
+// Verification hooks for /verif (property C03).  Add-only, compiled only with `-tags verif`.
+// They export unexported state and provide the injected clock used by the generated
+// `-overlay` copy of lease.go (where the tokens `time.Now()` are replaced by `verifNow()`).
+// Nothing here re-implements election logic.
+
+package election
+
+import (
+	"sync/atomic"
+	"time"
+
+	"go.etcd.io/etcd/clientv3"
+)
+
+var (
+	verifClock     atomic.Value // of func() time.Time
+	verifNowCalls  int64
+	verifOverlayOn int32
+)
+
+// VerifSetClock installs the clock read by lease.go (nil restores time.Now).
+func VerifSetClock(f func() time.Time) {
+	if f == nil {
+		f = time.Now
+	}
+	verifClock.Store(f)
+}
+
+// VerifNowCalls returns how often lease.go has read the clock through the overlay.
+func VerifNowCalls() int64 { return atomic.LoadInt64(&verifNowCalls) }
+
+// VerifOverlayActive tells whether the overlay copy of lease.go is compiled in
+// (it is known only after the first clock reading).
+func VerifOverlayActive() bool { return atomic.LoadInt32(&verifOverlayOn) == 1 }
+
+// verifNow is what the overlay copy of lease.go calls instead of time.Now.
+func verifNow() time.Time {
+	atomic.StoreInt32(&verifOverlayOn, 1)
+	atomic.AddInt64(&verifNowCalls, 1)
+	if f, ok := verifClock.Load().(func() time.Time); ok && f != nil {
+		return f()
+	}
+	return time.Now()
+}
+
+// VerifLeaseView is the local view a Leadership has of its lease.
+type VerifLeaseView struct {
+	Has       bool  // a lease object exists (Campaign was called at least once)
+	ID        int64 // etcd lease id, 0 if Grant did not succeed
+	ExpireSet bool  // expireTime has been stored at least once
+	Expire    time.Time
+	TTL       time.Duration
+}
+
+// VerifLease exports the unexported lease fields.
+func (ls *Leadership) VerifLease() VerifLeaseView {
+	l := ls.getLease()
+	if l == nil {
+		return VerifLeaseView{}
+	}
+	v := VerifLeaseView{Has: true, ID: int64(l.ID), TTL: l.leaseTimeout}
+	if e := l.expireTime.Load(); e != nil {
+		v.ExpireSet = true
+		v.Expire = e.(time.Time)
+	}
+	return v
+}
+
+// VerifLeaderValue exports leaderValue (the value LeaderTxn compares with).
+func (ls *Leadership) VerifLeaderValue() string { return ls.leaderValue }
+
+// VerifWrapLease replaces the clientv3.Lease used by the current lease object by w(it)
+// (failure injection for Revoke / KeepAliveOnce); no-op without a lease object.
+func (ls *Leadership) VerifWrapLease(w func(clientv3.Lease) clientv3.Lease) bool {
+	l := ls.getLease()
+	if l == nil {
+		return false
+	}
+	l.lease = w(l.lease)
+	return true
+}
